@@ -19,7 +19,7 @@ CONFIG = {
     "C01": dict(algos=None, families=None, n=(250, 4000), derived_sweep=True),
     "C02": dict(algos=["ID"], families=["star", "mesh", "meshx", "tree", "custom"], n=(200, 3000), perms=True, derived_sweep=True, topo_sweep=True, inject=2, degree_sweep=True),
     "C03": dict(algos=["SRC"], families=["star", "mesh", "meshx", "tree", "custom"], n=(200, 3000), perms=True, derived_sweep=True, topo_sweep=True, inject=2, degree_sweep=True),
-    "C04": dict(algos=["XY"], families=["mesh"], n=(200, 3000), xy_sweep=True, skip_xy_offset=True),
+    "C04": dict(algos=["XY"], families=["mesh"], n=(200, 3000), xy_sweep=True, skip_xy_offset=True, degree_sweep=True),
     "C05": dict(algos=None, families=None, n=(250, 4000), perms=True, topo_sweep=True, overfull_sweep=True, inject=5, degree_sweep=True),
     "C06": dict(algos=None, families=None, n=(250, 4000), topo_sweep=True, overfull_sweep=True, inject=4, degree_sweep=True, size_sweep=True),
     "C07": dict(algos=None, families=None, n=(250, 4000), perms=True, derived_sweep=True, inject=2, degree_sweep=True, tableless_sweep=True),
@@ -132,7 +132,7 @@ def sweep_cases(pid, tier, rng):
                 cfg["routing"]["use_id_table"] = False
                 out.append((f"tableless-xy:{m}x{n}:{'+'.join(sides)}", cfg))
     if conf.get("degree_sweep"):
-        for algo in ["XY", "ID", "SRC"]:
+        for algo in (conf.get("algos") or ["XY", "ID", "SRC"]):
             for degree in [4, 6, 7]:
                 cfg = gen_desc.gen_degree_mesh(rng, algo, rng.choice(["axi", "narrow-wide"]), degree)
                 if cfg:
@@ -510,6 +510,9 @@ class NetRunner:
                     rep.finding(f, {"property": pid, "finding": f, "cfg": None, "case": "testbench"})
         for name, cfg in corpus_cases(pid):
             handle(name, {"family": "corpus"}, cfg)
+        # the smallest and the extreme members of the families (fixed list)
+        for name, cfg in gen_desc.degenerate_cases(CONFIG[pid].get("algos")):
+            handle(name, {"family": "degenerate"}, cfg)
         for name, meta, cfg in generated_cases(pid, tier, seed):
             if time.time() - t0 > budget_s or len(rep.violations) >= self.MAX_VIOLATIONS:
                 stats["stopped-early"] += 1
